@@ -164,9 +164,50 @@ pub fn check_workspace(ctx: &mut Ctx, ws: &Workspace, sw: Option<&ScopedWs>, ori
 }
 
 /// Workspaces shared by the sweep-based properties: generated, corpus, damaged.
+/// A record value travelling through modules that do not import the module of its type: field
+/// reads (`found.name`) name the field without any import of the declaring module.
+pub fn gen_chain_workspace(c: &mut Choices) -> Workspace {
+    let (ty, ctor) = *c.pick(&[("Person", "Person"), ("Rec", "Mk"), ("T", "T")]);
+    let (f1, f2) = *c.pick(&[("name", "age"), ("l", "x"), ("a", "b")]);
+    let hops = 1 + c.below(3);
+    let mut ws = Workspace::default();
+    let mut push = |ws: &mut Workspace, name: &str, text: String| {
+        ws.files.push(crate::gen::scoped::WsFile { path: format!("/ws/app/src/{}.gleam", name), pkg: 0, text, module: Some(name.to_string()) });
+    };
+    push(
+        &mut ws,
+        "person",
+        format!("pub type {ty} {{\n  {ctor}({f1}: String, {f2}: Int)\n}}\n\npub fn new(n) {{\n  {ctor}({f1}: n, {f2}: 1)\n}}\n\npub fn first(p: {ty}) {{\n  p.{f1}\n}}\n"),
+    );
+    let mut prev = "person".to_string();
+    let mut prev_fn = "new".to_string();
+    for h in 0..hops {
+        let name = format!("hop{}", h);
+        let f = format!("pass{}", h);
+        push(&mut ws, &name, format!("import {prev}\n\npub fn {f}(id) {{\n  {prev}.{prev_fn}(id)\n}}\n"));
+        prev = name;
+        prev_fn = f;
+    }
+    let also_import = c.chance(60);
+    let mut text = format!("import {prev}\n");
+    if also_import {
+        text.push_str("import person\n");
+    }
+    text.push_str(&format!("\npub fn show(id) {{\n  let found = {prev}.{prev_fn}(id)\n  found.{f1}\n}}\n\npub fn other(id) {{\n  {prev}.{prev_fn}(id).{f2}\n}}\n"));
+    if c.chance(128) {
+        text.push_str(&format!("\npub fn both(id) {{\n  let p = {prev}.{prev_fn}(id)\n  #(p.{f2}, p.{f1}, show(id))\n}}\n"));
+    }
+    push(&mut ws, "report", text);
+    let toml = ws.files.len();
+    ws.files.push(crate::gen::scoped::WsFile { path: "/ws/app/gleam.toml".into(), pkg: 0, text: "name = \"app\"\n".into(), module: None });
+    ws.packages.push(crate::gen::scoped::Pkg { name: "app".into(), root: "/ws/app".into(), is_local: true, deps: vec![], toml_file: toml });
+    ws
+}
+
 pub fn gen_any_workspace(c: &mut Choices, corpus_files: &[(String, String)], allow_damage: bool) -> (Workspace, Option<ScopedWs>, &'static str) {
-    let k = c.weighted(&[6, 1, if allow_damage { 3 } else { 0 }, if allow_damage { 1 } else { 0 }]);
+    let k = c.weighted(&[6, 1, if allow_damage { 3 } else { 0 }, if allow_damage { 1 } else { 0 }, 1]);
     match k {
+        4 => (gen_chain_workspace(c), None, "record value through modules that do not import its type"),
         0 => {
             let cfg = Cfg { shadowed_guards: true, ..Cfg::default() };
             let (sw, _) = scoped::gen_workspace(c, &cfg);
